@@ -69,7 +69,7 @@ def run(ctx, rep):
     C07.bytes_to_le_rules(ctx.facts(), rep, "C08")
     from rules import cachelib, C07 as _C07
     cachelib.cache_rules(ctx, rep, "C08")
-    compose(ctx, rep, "C07", "C08.conv", r"^C07\.endian$")
+    compose(ctx, rep, "C07", "C08.conv", r"^C07\.(endian|width)$")
 
 
 def protocol(ctx, rep, P):
